@@ -34,6 +34,9 @@ Inductive ptr :=
 | PNew (k : nat).                            (* the result of the k-th allocator call on this path
                                                 (NULL when its oracle is false) *)
 
+(* what the translator writes for the result of the k-th allocator call: NULL when the request was refused *)
+Definition pnew (ok : bool) (k : nat) : ptr := if ok then PNew k else PNull.
+
 Inductive arg := AP (p : ptr) | AZ (z : Z).
 
 (* ---------- ordered part: what reaches the allocator, and calls of other listed functions ---------- *)
